@@ -93,6 +93,19 @@ def apply(it, fn, args):
             for k in range(8):
                 bs.append(tuple(bits[8 * k: 8 * k + 8]))
         return M256(bs)
+    if name in ("_mm256_set1_epi64x", "_mm256_set1_epi32", "_mm256_set1_epi16"):
+        nb = {"_mm256_set1_epi64x": 8, "_mm256_set1_epi32": 4, "_mm256_set1_epi16": 2}[name]
+        bits = list(args[0].getbits())
+        one = [tuple(bits[8 * k: 8 * k + 8]) for k in range(nb)]
+        return M256(one * (32 // nb))
+    if name in ("_mm256_setr_epi64x", "_mm256_setr_epi8"):
+        nb = 8 if name.endswith("64x") else 1
+        bs = []
+        for v in args:
+            bits = list(v.getbits())
+            for k in range(nb):
+                bs.append(tuple(bits[8 * k: 8 * k + 8]))
+        return M256(bs)
     if name == "_mm256_loadu_si256":
         r = args[0]
         if not isinstance(r, Ref):
